@@ -18,6 +18,7 @@ pub fn generics(
     HashSet<GenericFunction>,
 )> {
     let mut types = HashSet::new();
+    let mut imported = vec![];
     let mut fields = HashSet::new();
     let mut functions = HashSet::new();
 
@@ -44,9 +45,7 @@ pub fn generics(
                             from,
                             import,
                             alias,
-                        } => from_import(from, import, alias)?.into_iter().for_each(|t| {
-                            types.insert(t);
-                        }),
+                        } => imported.append(&mut from_import(from, import, alias)?),
                         _ => {}
                     }
                 }
@@ -54,6 +53,12 @@ pub fn generics(
             _ => return Err(vec![TypeErr::new(file.pos, "Expected file")]),
         }
     }
+
+    // An import stands in for a class of which we know nothing, it must never take the place of
+    // a class defined in one of the files, whatever the order of the files.
+    imported.into_iter().for_each(|ty| {
+        types.insert(ty);
+    });
 
     Ok((types, fields, functions))
 }
